@@ -1,6 +1,7 @@
 """C03 — the RVB cluster update preserves the thermal distribution (partial by nature)."""
 from checks import kern
 from checks import pure_fns
+from checks import api_cov
 LEAN_TARGETS = ["QmcProps.C03", "drv_c03"]
 BINS = ["c03", "kern"]
 
@@ -84,4 +85,5 @@ def main(ck):
         # the RVB step embedded in `timestep` (its own copies of the weight closures) vs the explicit decomposition
         ck.correspond("timestep-embedded-rvb", "drv_c03", ck.harness("c03", ["pipeline"]))
         kern.run(ck, "rvb")   # exact one-step kernels of the real code on tiny systems: pi K = pi
+    api_cov.run(ck, "c03")   # otherwise unexercised public API, model-free oracles of this property
     return ck.finish(RULE)
